@@ -50,7 +50,7 @@ TECHNIQUE = "model-based history testing (bounded exhaustive op sequences + Hypo
 RULE = (
     "case = (cooldown in {0,1,5} s, periodic_send in {0,7} s, XKNX rate_limit in {0,5,20}/s, value type binary | temperature | string, history over {set(value, skip_unchanged), burst of 2-4 set() calls without yielding to the loop, GroupValueRead from the bus, initialize_value(value), advance by a gap around the thresholds or below 1/rate}); "
     "enumerated: all op sequences up to length 3 (quick) / 4 (thorough) over {set A, set B, set A/B with skip_unchanged, read, advance cooldown/2, cooldown, cooldown+1/8} x cooldown {1,5} x periodic {0,7}; "
-    "cooldown 0: all sequences up to length 2 (quick) / 3 (thorough) over single sets, read, an advance and all 2-set bursts over {A,B} x skip flag plus the A,B,A / B,A,B bursts; rate_limit {5,20} x cooldown 0: all sequences up to length 3 (4) over sets, read, advance 1/64 s, advance 1 s; longer histories (<= 14 ops) sampled; "
+    "cooldown 0: all sequences up to length 2 (quick) / 3 (thorough, binary values) over single sets, read, an advance and all 2-set bursts over {A,B} x skip flag plus the A,B,A / B,A,B bursts; rate_limit {5,20} x cooldown 0: all sequences up to length 3 (4) over sets, read, advance 1/64 s, advance 1 s; longer histories (<= 14 ops) sampled; "
     "non-trivial = at least two updates of which one falls inside a running cooldown (or cooldown 0), or a read after an update, or an equal-payload set with skip_unchanged; distinct by case"
 )
 LEVEL_TEXT = "Generated update/read/initialize histories (single and back-to-back updates, with and without an outgoing rate limit) with timings around the cooldown and periodic thresholds run against the real ExposeSensor in virtual time; the four clauses of the statement are decided from the outgoing telegram log of a recording interface."
@@ -318,12 +318,10 @@ def classify(case):
     nontrivial = False
     last_payload = None
     vals = VALUES[case["vtype"]]
-    recent_sets = []  # payloads of the sets since the loop last ran (same op) / within 1/rate
     for op in case["ops"]:
         if op[0] == "burst":
             cls.add("burst")
-            pl = [vals[vi][1] for vi, _s in op[1]]
-            if len(pl) >= 2 and any(s for _v, s in op[1][1:]):
+            if any(s for _v, s in op[1][1:]):
                 cls.add("burst-with-skip")
         elif op[0] == "adv" and op[1] and op[1] in (c, case["periodic"]):
             cls.add("gap=threshold")
@@ -342,7 +340,6 @@ def classify(case):
                 cls.add("skip-equal")
             elif e["skip"]:
                 cls.add("skip-different")
-                recent_sets.append(p)
             last_payload = p
             last_send_cause = e["t"]
         elif e["kind"] == "init":
@@ -494,7 +491,7 @@ def _procs(want: int = 8) -> int:
 def run(ctx) -> None:
     L = ctx.n(3, 4)
     jobs = [("cooldown", c, P, 0, vtype, L) for c in (1, 5) for P in (0, 7) for vtype in ("binary", "temperature")]
-    jobs += [("burst", 0, P, 0, vtype, ctx.n(2, 3)) for P in (0, 7) for vtype in ("binary", "temperature")]
+    jobs += [("burst", 0, P, 0, vtype, ctx.n(2, 3) if vtype == "binary" else 2) for P in (0, 7) for vtype in ("binary", "temperature")]
     jobs += [("rate", 0, P, rate, "binary", L) for P in (0, 7) for rate in (5, 20)]
     parallel(ctx, _enum_shard, jobs, procs=_procs())
     parallel(ctx, _hyp_shard, [(ctx.n(300, 4000),)] * 8, procs=_procs())
